@@ -227,6 +227,38 @@ def run_real(witness, params, timeline):
     return truncate(rec.steps)
 
 
+def run_real_sync(witness, params, timeline):
+    """the same input delivered from INSIDE the source's subscribe call: the operator sees every notification before it holds the handle of
+    its source subscription (the delivery mode of from_iterable / of / return_value on the immediate scheduler and of created observables)"""
+    import reactivex
+    from reactivex import operators as ops
+    from reactivex.disposable import Disposable
+
+    env = {"ops": ops, "reactivex": reactivex, "rx": reactivex}
+    env.update(params)
+    rec = Recorder()
+
+    def sub(observer, scheduler=None):
+        for ev in timeline:
+            rec.mark()
+            try:
+                if ev[0] == "N":
+                    observer.on_next(ev[1])
+                elif ev[0] == "E":
+                    observer.on_error(ev[1])
+                else:
+                    observer.on_completed()
+            except Exception as e:  # escaped into the emitter
+                rec.steps[-1].append(("ESCAPED", type(e).__name__, str(e)[:80]))
+        return Disposable()
+    try:
+        obs = reactivex.create(sub).pipe(eval(witness, env))
+    except Exception as e:  # application-time exception
+        return [[("RAISED", type(e).__name__)]]
+    obs.subscribe(rec.on_next, rec.on_error, rec.on_completed)
+    return truncate(rec.steps)
+
+
 def _feed(subj, ev, recs):
     for r in recs:
         r.mark()
@@ -483,6 +515,14 @@ def diff_real(c, max_len=3, values=None, pin=None, budget_s=60.0, stop_first=Tru
                               "_case": (params, tl)})
                 if stop_first:
                     return {"cases": cases, "found": found, "seconds": time.time() - t0}
+            elif not getattr(c, "timed", False):
+                cases += 1
+                real2 = run_real_sync(c.witness, params, tl)
+                if flat(real2) != flat(spec):  # (a source that is never subscribed - take(0) - has no steps: the sequences are compared)
+                    found.append({"params": show(params), "timeline": show(tl), "real": show(real2), "spec": show(spec), "delivery": "from inside the source's subscribe call",
+                                  "_case": (params, tl), "_sync": True})
+                    if stop_first:
+                        return {"cases": cases, "found": found, "seconds": time.time() - t0}
             if time.time() - t0 > budget_s:
                 return {"cases": cases, "found": found, "seconds": time.time() - t0, "budget_exhausted": True}
     return {"cases": cases, "found": found, "seconds": time.time() - t0}
@@ -500,13 +540,13 @@ c = diffrun.contract_of({mod!r}, {name!r})
 case = {case}
 params = diffrun.decode_params(c, case["params"])
 timeline = diffrun.decode_timeline(case["timeline"])
-real = diffrun.run_real(c.witness, params, timeline)
+real = (diffrun.run_real_sync if case.get("sync") else diffrun.run_real)(c.witness, params, timeline)
 spec = diffrun.run_spec(diffrun.spec_class(c), params, timeline)
-print("operator :", c.witness, case["params"])
+print("operator :", c.witness, case["params"], "(notifications delivered from inside the source's subscribe call)" if case.get("sync") else "")
 print("input    :", case["timeline"])
 print("real     :", real)
 print("expected :", spec)
-sys.exit(1 if real != spec else 0)
+sys.exit(1 if (diffrun.flat(real) != diffrun.flat(spec) if case.get("sync") else real != spec) else 0)
 '''
 
 
@@ -592,8 +632,11 @@ def main(argv):
         res = diff_real(c, opts.get("max_len", 3), pin=opts.get("pin"), budget_s=opts.get("budget_s", 60.0))
         for f in res["found"]:
             case = f.pop("_case", None)
+            sync = f.pop("_sync", False)
             if case is not None:
                 f["case"] = {"params": encode_params(c, case[0]), "timeline": encode_timeline(case[1])}
+                if sync:
+                    f["case"]["sync"] = True
         if mode == "replay" and res["found"] and "case" in res["found"][0]:
             path = opts["replay_path"]
             os.makedirs(os.path.dirname(path), exist_ok=True)
